@@ -595,6 +595,19 @@ def body_routes(case, ctx):
                                      np.asarray(r[[names1[g] for g in w]])),
                       "string words and list words agree for single-character names", word=w)
             ctx.label("string-word")
+    # names of any length work in the documented star syntax (parse_simple=False): this is
+    # the only string syntax for the "alphanum" naming style (s0, s1, ...)
+    for (G_, names_) in ((G1, names1), (G2, names2)):
+        r = G_.geometric_representation()
+        for w in case["words"]:
+            if not w:
+                continue
+            star = "*".join(names_[g] for g in w)
+            ctx.check(np.array_equal(np.asarray(r.element(star, parse_simple=False)),
+                                     np.asarray(r[[names_[g] for g in w]])),
+                      "star-syntax words (parse_simple=False) and list words agree", word=star)
+            if len(names_[0]) > 1:
+                ctx.label("star-word-multichar")
 
 
 # ---------------------------------------------------------------------------
